@@ -348,22 +348,26 @@ impl H
 //-------------------------------------------------------------------------------------------------------------------
 // Actors
 
+/// The run counter every actor keeps in a `Local`. Creating it is observable: a system's state is created exactly once (C13).
+pub struct Cnt(pub u32);
+impl FromWorld for Cnt { fn from_world(_: &mut World) -> Self { log(Ev::StateCreated); Cnt(0) } }
+
 pub trait MkRet: CobwebResult { fn mk(err: bool) -> Self; }
 impl MkRet for () { fn mk(_: bool) -> Self {} }
 impl MkRet for DropErr { fn mk(err: bool) -> Self { if err { Err(IgnoredError) } else { Ok(()) } } }
 impl MkRet for WarnErr { fn mk(err: bool) -> Self { if err { Err(WarnError::None) } else { Ok(()) } } }
 
-pub fn plain_actor<Ret: MkRet>(inst: u8) -> impl FnMut(Readers, PlainParams, Local<u32>) -> Ret + Send + Sync + 'static
+pub fn plain_actor<Ret: MkRet>(inst: u8) -> impl FnMut(Readers, PlainParams, Local<Cnt>) -> Ret + Send + Sync + 'static
 {
     let mut cap = 0u32;
     let canary = Canary(inst);
-    move |mut r: Readers, mut p: PlainParams, mut n: Local<u32>|
+    move |mut r: Readers, mut p: PlainParams, mut n: Local<Cnt>|
     {
         let _ = &canary;
-        *n += 1;
+        n.0 += 1;
         cap += 1;
         let (s, held) = r.sample();
-        log(Ev::Body { inst, n: *n, cap, s, chg: r.changed() });
+        log(Ev::Body { inst, n: n.0, cap, s, chg: r.changed() });
         drop(held);
         let run = p.h.next_run(inst);
         let prog = p.h.prog.clone();
@@ -376,17 +380,17 @@ pub fn plain_actor<Ret: MkRet>(inst: u8) -> impl FnMut(Readers, PlainParams, Loc
 
 /// Same as `plain_actor::<()>` but every parameter except the `Local` is a member of one `ParamSet` (a legitimate way of
 /// writing a system; Bevy then reports the system's deferred buffers differently).
-pub fn ps_actor(inst: u8) -> impl FnMut(ParamSet<(Readers, PlainParams)>, Local<u32>) + Send + Sync + 'static
+pub fn ps_actor(inst: u8) -> impl FnMut(ParamSet<(Readers, PlainParams)>, Local<Cnt>) + Send + Sync + 'static
 {
     let mut cap = 0u32;
     let canary = Canary(inst);
-    move |mut ps: ParamSet<(Readers, PlainParams)>, mut n: Local<u32>|
+    move |mut ps: ParamSet<(Readers, PlainParams)>, mut n: Local<Cnt>|
     {
         let _ = &canary;
-        *n += 1;
+        n.0 += 1;
         cap += 1;
         let ((s, held), chg) = { let mut r = ps.p0(); (r.sample(), r.changed()) };
-        log(Ev::Body { inst, n: *n, cap, s, chg });
+        log(Ev::Body { inst, n: n.0, cap, s, chg });
         drop(held);
         let mut p = ps.p1();
         let run = p.h.next_run(inst);
@@ -398,17 +402,17 @@ pub fn ps_actor(inst: u8) -> impl FnMut(ParamSet<(Readers, PlainParams)>, Local<
 }
 
 /// A system that reaches the world through `DeferredWorld` only: all its commands go on the world's own command queue.
-pub fn dw_actor(inst: u8) -> impl FnMut(ParamSet<(Readers, bevy::ecs::world::DeferredWorld)>, Local<u32>) + Send + Sync + 'static
+pub fn dw_actor(inst: u8) -> impl FnMut(ParamSet<(Readers, bevy::ecs::world::DeferredWorld)>, Local<Cnt>) + Send + Sync + 'static
 {
     let mut cap = 0u32;
     let canary = Canary(inst);
-    move |mut ps: ParamSet<(Readers, bevy::ecs::world::DeferredWorld)>, mut n: Local<u32>|
+    move |mut ps: ParamSet<(Readers, bevy::ecs::world::DeferredWorld)>, mut n: Local<Cnt>|
     {
         let _ = &canary;
-        *n += 1;
+        n.0 += 1;
         cap += 1;
         let ((s, held), chg) = { let mut r = ps.p0(); (r.sample(), r.changed()) };
-        log(Ev::Body { inst, n: *n, cap, s, chg });
+        log(Ev::Body { inst, n: n.0, cap, s, chg });
         drop(held);
         let mut dw = ps.p1();
         let prog = dw.resource::<H>().prog.clone();
@@ -430,17 +434,17 @@ pub fn dw_actor(inst: u8) -> impl FnMut(ParamSet<(Readers, bevy::ecs::world::Def
 }
 
 pub fn ewr_actor<T: EntityWorldReactor<Local = u32>>(inst: u8)
-    -> impl FnMut(EntityLocal<T>, Readers, PlainParams, Local<u32>, &Entities) + Send + Sync + 'static
+    -> impl FnMut(EntityLocal<T>, Readers, PlainParams, Local<Cnt>, &Entities) + Send + Sync + 'static
 {
     let mut cap = 0u32;
     let canary = Canary(inst);
-    move |mut l: EntityLocal<T>, mut r: Readers, mut p: PlainParams, mut n: Local<u32>, ents: &Entities|
+    move |mut l: EntityLocal<T>, mut r: Readers, mut p: PlainParams, mut n: Local<Cnt>, ents: &Entities|
     {
         let _ = &canary;
-        *n += 1;
+        n.0 += 1;
         cap += 1;
         let (s, held) = r.sample();
-        log(Ev::Body { inst, n: *n, cap, s, chg: r.changed() });
+        log(Ev::Body { inst, n: n.0, cap, s, chg: r.changed() });
         drop(held);
         let src = l.entity();
         let src_alive = ents.contains(src);
@@ -459,14 +463,14 @@ pub fn ewr_actor<T: EntityWorldReactor<Local = u32>>(inst: u8)
     }
 }
 
-pub fn excl_actor<Ret: MkRet>(inst: u8) -> impl FnMut(&mut World, &mut SystemState<Readers<'static, 'static>>, Local<u32>) -> Ret + Send + Sync + 'static
+pub fn excl_actor<Ret: MkRet>(inst: u8) -> impl FnMut(&mut World, &mut SystemState<Readers<'static, 'static>>, Local<Cnt>) -> Ret + Send + Sync + 'static
 {
     let mut cap = 0u32;
     let canary = Canary(inst);
-    move |world: &mut World, st: &mut SystemState<Readers<'static, 'static>>, mut n: Local<u32>|
+    move |world: &mut World, st: &mut SystemState<Readers<'static, 'static>>, mut n: Local<Cnt>|
     {
         let _ = &canary;
-        *n += 1;
+        n.0 += 1;
         cap += 1;
         // An exclusive system reads its event through a nested system: every third instance through its own `SystemState`, the
         // others through `World::syscall_once` / `World::syscall_once_with_validation` (which flush when they return, so the
@@ -474,14 +478,14 @@ pub fn excl_actor<Ret: MkRet>(inst: u8) -> impl FnMut(&mut World, &mut SystemSta
         let held = if inst % 3 == 0
         {
             let ((s, held), chg) = { let mut r = st.get_mut(world); (r.sample(), r.changed()) };
-            log(Ev::Body { inst, n: *n, cap, s, chg });
+            log(Ev::Body { inst, n: n.0, cap, s, chg });
             held
         }
         else
         {
             let chg = st.get_mut(world).changed();
             let sampler = |In((inst, n, cap, chg)): In<(u8, u32, u32, bool)>, mut r: Readers| { let (s, held) = r.sample(); log(Ev::Body { inst, n, cap, s, chg }); held };
-            if inst % 3 == 1 { world.syscall_once((inst, *n, cap, chg), sampler) } else { world.syscall_once_with_validation((inst, *n, cap, chg), sampler, |_| {}) }
+            if inst % 3 == 1 { world.syscall_once((inst, n.0, cap, chg), sampler) } else { world.syscall_once_with_validation((inst, n.0, cap, chg), sampler, |_| {}) }
         };
         drop(held);
         let run = world.resource_mut::<H>().next_run(inst);
